@@ -121,6 +121,9 @@ GATED = [
 ]
 # refused after the parse for another reason than the version (a name that is no identifier): the same refusal at every version
 GATED += ["type X = \u00b2\n", "try: \u00b2\nexcept* E: pass\n", "def f[T](): a\u00b2\n", "class A[T\u00b2]: pass\n", "type \u0661 = int\n", "try:\n    pass\nexcept* E as e\u00b9:\n    pass\n"]
+# gated constructs next to a call macro whose tokens are read twice ('match' starts a match statement first)
+GATED += [g + m for g in ("type X = int\n", "try:\n    pass\nexcept* E:\n    pass\n", "def f[T](): pass\n") for m in ("match!(a, b)\n", "match !(a b, c)\n")]
+GATED += [m + g for g in ("type X = int\n", "class A[T]: pass\n") for m in ("match!(a, b)\n",)] + ["type X = int\nmatch!(a, b)\ntry:\n    pass\nexcept* E:\n    pass\n"]
 GATED = [g for g in GATED if g]
 
 
